@@ -160,13 +160,13 @@ var Specs = map[string]*PropSpec{
 		Rule: "refresh-biased sequence (clock moved onto refresh deadlines); non-trivial = at least one reload and one manual refresh message; distinct = hash of (config, ops)"},
 	"C12": {Profiles: []string{"expiry", "refresh", "sweep"}, Classes: []string{"deadline", "tooearly", "calc", "calcexp", "expired", "early"}, Quick: 16000, Thorough: 1000000, MinOps: 60, MaxOps: 250,
 		Rule: "deadline-biased sequence; after every operation ExpiresAtNano/RefreshableAtNano of every key is compared with op time + calculator duration (saturating); non-trivial = at least 5 calculator consultations; distinct = hash of (config, ops)"},
-	"C13": {Profiles: []string{"sweep"}, Classes: []string{"sweep", "unreported", "wheel"}, Quick: 12000, Thorough: 800000, MinOps: 80, MaxOps: 400,
+	"C13": {Profiles: []string{"sweep"}, Classes: []string{"sweep", "unreported", "wheel", "expcause"}, Quick: 12000, Thorough: 800000, MinOps: 80, MaxOps: 400,
 		Rule: "sweep-biased sequence (TTLs ns..years, clock jumps up to many wheel revolutions, CleanUp); at each CleanUp every entry older than one tick must be gone and reported; non-trivial = at least one CleanUp that judged an expired entry; distinct = hash of (config, ops)"},
 	"C04": {Profiles: []string{"size", "queued", "sizeexp"}, Classes: []string{"bound"}, Quick: 6000, Thorough: 400000, MinOps: 80, MaxOps: 400,
 		Rule: "sequential part: size-biased sequences, the weight total of the model's physical contents is compared with the maximum after every operation (same-goroutine executor, so maintenance has run)"},
 	"C05": {Profiles: []string{"size", "mix", "queued", "sizeexp"}, Classes: []string{"views", "wheel"}, Quick: 6000, Thorough: 400000, MinOps: 80, MaxOps: 400,
 		Rule: "sequential part: EstimatedSize, WeightedSize, GetMaximum, All/Keys/Values/Hottest/Coldest compared with the model after operations"},
-	"C06": {Profiles: []string{"mix", "expiry", "size", "queued"}, Classes: []string{"event", "unreported"}, Quick: 8000, Thorough: 500000, MinOps: 80, MaxOps: 300,
+	"C06": {Profiles: []string{"mix", "expiry", "size", "queued"}, Classes: []string{"event", "unreported", "expcause"}, Quick: 8000, Thorough: 500000, MinOps: 80, MaxOps: 300,
 		Rule: "sequential part: the exact multiset of OnAtomicDeletion/OnDeletion events of every operation (own effects with Replacement/Invalidation/Expiration causes, automatic removals) is compared with the model"},
 	"C20": {Profiles: []string{"stats", "load"}, Classes: []string{"stats"}, Quick: 10000, Thorough: 600000, MinOps: 80, MaxOps: 300,
 		Rule: "sequence with a stats recorder; Stats() compared with the model's tallies after every operation; non-trivial = at least 10 counted lookups and one load; distinct = hash of (config, ops)"},
@@ -175,7 +175,7 @@ var Specs = map[string]*PropSpec{
 func (s *PropSpec) refutes(class string, opKind int, onExpired ...bool) bool {
 	if s.OnExpired && len(onExpired) > 0 && onExpired[0] {
 		switch class {
-		case "ret", "event", "unreported", "calc", "calcexp", "deadline", "tooearly", "views", "load", "refresh":
+		case "ret", "event", "expcause", "unreported", "calc", "calcexp", "deadline", "tooearly", "views", "load", "refresh":
 			return true // the operation treated a dead entry as if it were there
 		}
 	}
@@ -186,7 +186,7 @@ func (s *PropSpec) refutes(class string, opKind int, onExpired ...bool) bool {
 	}
 	// the cache's state or an event deviates from the model during an operation the property is about
 	switch class {
-	case "ret", "event", "unreported", "calc", "calcexp", "views", "expired":
+	case "ret", "event", "expcause", "unreported", "calc", "calcexp", "views", "expired":
 		for _, k := range s.OpKinds {
 			if k == opKind {
 				return true
